@@ -33,7 +33,7 @@ mkdir -p $out && cp /tmp/seed_patch_$id.diff $out/patch.diff && cp $d/$demo $out
 # run the check on /repo with the change applied
 if [ -n "$(git -C /repo status --porcelain --untracked-files=no)" ]; then echo "/repo has uncommitted tracked changes; commit them first (git checkout would discard them)"; exit 4; fi
 cd /repo && git apply $out/patch.diff || { echo "patch does not apply to /repo"; exit 3; }
-/verif/bin/govc verify -repo /repo -property $id -replays /tmp/vf-replays-seed -known /verif/known_findings.jsonl > /tmp/seed_check_$id.log 2>&1; rc=$?; if [ "$id" = C03 ] && [ $rc -eq 0 ]; then /verif/tools/bounded_c03.sh /repo "" >> /tmp/seed_check_$id.log 2>&1; rc=$?; fi
+/verif/bin/govc verify -repo /repo -property $id -replays /tmp/vf-replays-seed -known /verif/known_findings.jsonl > /tmp/seed_check_$id.log 2>&1; rc=$?; if { [ "$id" = C03 ] || [ "$id" = C02 ]; } && [ $rc -eq 0 ]; then /verif/tools/bounded_c03.sh /repo "" "$id" >> /tmp/seed_check_$id.log 2>&1; rc=$?; fi
 git -C /repo checkout -- . 
 grep -E "^VIOLATION|^property=|^UNDECIDED" /tmp/seed_check_$id.log | cut -c1-260
 echo "check exit code: $rc"
